@@ -45,6 +45,14 @@ CHECKS = {
          "Layouts of 1..3 steps, thresholds 1..3 with 0/1 surplus valid links, one of 11 single-point differences (path added/removed/renamed, digest, algorithm renamed/added) on any counted link, every subset of unsigned/unauthorised/tampered uncounted links carrying other artifacts, strict and permissive rules, both wrappers, are verified end-to-end under every permutation of the reference-link pick and the per-link loop (plus one order deviation elsewhere): any disagreement must reject in every order, agreement must accept with a summary carrying the requested name, the first step's materials and the last step's products, and uncounted links must not change verdict or summary.",
          "Trusted: construction of the cases; overlay rewriter. Outside: multi-point disagreements, more than 4 links per step.",
          "DESIGN.md §3 C05"),
+ "C08": ("bounded-exhaustive enumeration of a generated family of nested supply chains (defect x level x delegating functionary x parent rules x shape), each under every order of the sublayout and counting loops, against a constructive oracle",
+         "Depth 2 (thorough 3) nestings with one- or two-step deepest layouts and an optional second delegation by another functionary; 8 defects placed at every level (wrong signer, corrupted signature, expiry under an owned clock, link missing / tampered / unauthorised, rule violated, threshold unmet); sublayout offered by an authorised, an unlisted and a foreign functionary; parent rules matching or violated by the summary; both wrappers. Verdict known by construction; on accept the root summary is compared and every level's marker inspection must have run; in a failing layout and its ancestors no inspection may run; a layout offered by an unauthorised functionary must not be followed (no marker below).",
+         "Trusted: construction of the family. Outside: deeper nesting, certificate-delegated sublayouts.",
+         "DESIGN.md §3 C08"),
+ "C09": ("bounded-exhaustive enumeration of directory x inspection commands x rule lists x entry point with real processes, against a reference that predicts each command's file-system effect and evaluates the rules with the reference rule interpreter",
+         "5 final-product directories x 0..2 (thorough 3) inspections x 12 command behaviours (no-op, create/modify/delete, exit 1/2/127/255, signal, missing executable, empty command, 1 MiB output) x 5 rule lists x cwd / explicit run directory, plus DSSE and failing step checks; every command logs its index so execution, order and 'only after step checks' are observed; the reference hashes predicted contents itself and decides accept/reject with ref.Rules over predicted materials/products (incl. the link files the verifier drops into the working directory).",
+         "Trusted: ref.Rules; /bin/sh behaviour of the catalogue commands. Outside: commands with other effects, line normalisation.",
+         "DESIGN.md §3 C09"),
  "C10": ("deviation-bounded exhaustive exploration of map iteration orders of the real verifier + explicit-state BFS over histories of verifications on the same live objects (differential against freshly loaded copies)",
          "On six generated chains x both wrappers: (1) every combination of iteration orders with <= 1 (thorough <= 2) deviations from the default, with all permutations at the loops the property's anchors name, must yield the same verdict and byte-identical canonical summary; (2) BFS over operation histories {V(), V(P=f), V(P=x), VDir(P=f)} to depth 3 (4) on the same in-memory layout/key objects: each result equals the result on freshly loaded copies and the caller-owned serialisation never changes; (3) the exported verification routines are called twice on the same in-memory maps.",
          "Trusted: overlay rewriter (34/34 map ranges owned, reported per run). Outside: > 2 simultaneous order deviations; orders inside dependencies.",
